@@ -617,27 +617,60 @@ def model_rule(ctx, res, only_index=False, rule="C06.model", ops=None):
                 o = one(W.call(st, root("root_object_from_vec"), [vec]), "from_vec")
                 cell = o.new_obj(o.outcome[1])
                 check_state(W, o, cell.id, "from_vec", before, before, "")
+            # -- bulk extension / collection: Extend and FromIterator, for entries and for (key, value) pairs, keep every
+            #    element in order (push semantics: duplicates are preserved)
+            if want_op("extend"):
+                for added in ([], [("k", 8)], [("m", 8), ("k", 9)], [("k", 9), ("k", 9)]):
+                    for kind in ("entries", "pairs"):
+                        for form in ("extend", "from_iter"):
+                            if form == "from_iter" and before:
+                                continue
+                            rname = "root_object_%s_%s" % (form, kind)
+                            r = root(rname)
+                            W = world()
+                            st = W.sh.st
+                            if kind == "entries":
+                                items = tuple(W.entry(k, v) for k, v in added)
+                            else:
+                                vty = r["locals"][2 if form == "extend" else 1]
+                                tty = P.types[vty]["targs"][0]
+                                items = tuple(Agg(tty, 0, (W.key(k), W.val(v))) for k, v in added)
+                            vec = st.new_obj(objmodel.AVec(items, "added"))
+                            opn = "%s<%s>" % (form, kind)
+                            if form == "extend":
+                                oref, cid = W.mk_object(st, before)
+                                o = one(W.call(st, r, [oref, vec]), opn)
+                            else:
+                                o = one(W.call(st, r, [vec]), opn)
+                                cid = o.new_obj(o.outcome[1]).id
+                            check_state(W, o, cid, opn, before, before + added, "(%s)" % show(added))
             # -- canonicalize_with (feature `canonicalize`): every value canonicalised, then members ordered by the UTF-16 form
             #    of their keys (ties by value), index exact.  The same objects with the keys replaced by a pair on which
             #    code-point order and UTF-16 order disagree.
             if want_op("canonicalize_with") and "root_object_canonicalize_with" in P.roots:
                 ren = {"k": objmodel.UKEYS[0], "m": objmodel.UKEYS[1]}
-                for variant in (before, [(ren[k], v) for k, v in before]):
+                for variant, cform in [(v_, f_) for v_ in (before, [(ren[k], v) for k, v in before]) for f_ in ("canonicalize_with", "canonicalize")]:
+                    if cform == "canonicalize" and "root_object_canonicalize" not in P.roots:
+                        raise Undecided("harness root root_object_canonicalize missing")
                     W = world()
                     if not (ops is not None and not only_index):
                         W.permute_instead_of_sort = True  # C06 / C15 look at the index only: the canonical order is C09's / C10's
                     st = W.sh.st
                     oref, cid = W.mk_object(st, variant)
                     buf = st.new_obj(Top(None, "ryu-buffer"))
-                    o = one(W.call(st, root("root_object_canonicalize_with"), [oref, Ref(("H", buf.id), ())]), "canonicalize_with")
+                    if cform == "canonicalize_with":
+                        o = one(W.call(st, root("root_object_canonicalize_with"), [oref, Ref(("H", buf.id), ())]), "canonicalize_with")
+                    else:
+                        # the buffer-less entry point must do the same
+                        o = one(W.call(st, root("root_object_canonicalize"), [oref]), "canonicalize")
                     strict_canon = ops is not None and not only_index  # C09 / C10: order and coverage; C06 / C15: the index only
                     want = sorted(variant, key=lambda e: (objmodel.U16_RANK[e[0]], e[1])) if strict_canon else None
-                    check_state(W, o, cid, "canonicalize_with", variant, want, "")
+                    check_state(W, o, cid, cform, variant, want, "")
                     canon = [e[1] for e in o.events if e[0] == "canon"]
                     vals = sorted(v for _, v in variant)
                     got = sorted(c.tag[1] for c in canon if isinstance(c, Top) and isinstance(c.tag, tuple) and c.tag[0] == "val")
                     if got != vals and strict_canon:
-                        fail("canonicalize_with", "values", "canonicalize_with on %s canonicalises the values %r, expected each of %r once" % (show(variant), got, vals))
+                        fail(cform, "values", "%s on %s canonicalises the values %r, expected each of %r once" % (cform, show(variant), got, vals))
             # -- queries
             for k in (KEYS + ("z",)) if want_op("queries") else ():
                 pos = [i for i, e in enumerate(before) if e[0] == k]
